@@ -96,6 +96,33 @@ for _k, (_c, _n, _t) in EXTRA.items():
     c0, n0, t0 = CLAIMS[_k]
     CLAIMS[_k] = (c0 + _c, n0 + _n, t0 + _t)
 
+# clauses added by the rules written for the wave-4 and wave-5 seeded changes
+EXTRA2 = {
+ "C01": "; a time.Time built from a timestamp is not queried for calendar fields or formatted before UTC(); the receiver of a big-number mutator never aliases a pointer held by a package-level variable of any package (common.Big1 …) and every package-level slice used as an append prefix has len == cap",
+ "C02": "; the journal's dirty set is a per-address reference count; the x/evm and x/bank parameter handlers write only where the request's authority equals the keeper's; StateDB.Suicide writes the object's cached balance on every return for an existing object",
+ "C03": "; the unsigned Cosmos envelope of an Ethereum transaction is pinned to the signed content (fee, gas, no extras); in ethereum/eip712 the sign doc's message list is never cut, is returned whole, and every message of it is handed on",
+ "C04": "; an ics20 allocation is selected only where both port and channel match; in every precompile function with grantee and granter parameters each call that takes such a pair receives them in their own positions",
+ "C05": "; a recovered out-of-gas panic surfaces through Run's named error result; the log list is cut back to exactly its length before the journalled AddLog; in spend handlers no grant write can precede the fallible Cosmos-side effect",
+ "C06": "; every inner message of a MsgExec is looked up in the disabled-type list, at every nesting level",
+ "C07": "; the refund quotient is chosen by the fork rules (London), not by a configuration switch",
+ "C08": "; in addGrant both schedule merges run before any of the account's schedule fields is written back",
+ "C09": "; addGrant merges lock-up and vesting schedules with DisjunctPeriods before writing any schedule field back; every ValidateBasic loop over schedule periods tests each period's own length and amount",
+ "C10": "; the erc20 parameter handler writes only under the keeper's authority; the approval monitor compares every log's first topic; GetTokenPairID reads only the erc20 store under a key of the given token (no other keeper, no scan)",
+ "C11": "; the split results of SubtractAmountFromPeriods are handed on unmodified (or as a plain copy) to CreateDenom, UpdateDenomPeriods and ApplyVestingSchedule",
+ "C12": "; a credit is a read-add-write of the recipient's stored balance",
+ "C13": "; every success exit of MintAndAllocate records the block timestamp (tabled: the negative-amount 'corrupted state' edge)",
+ "C14": "; when the community-pool credit is assembled coin by coin no coin is passed over",
+ "C15": "; keeper errors on staking/distribution state paths are not dropped; the MsgSend wrapper tests the recipient against the blocked addresses on every success path; an Ethereum transaction runs on a cache context written only on success and an out-of-gas panic in a precompile is a failure (C05 R2/R6 imported)",
+ "C16": "; every precompile constructor of a native message returns it only after an error-checked ValidateBasic() of that message; a read-only method never stores into the native response",
+ "C17": "; both base-fee activation predicates are height >= EnableHeight; gas quantities are narrowed only through the unsigned IsUint64/Uint64",
+ "C18": "; AsTransaction builds the transaction from the message's own Data on every path; the fee BuildTx puts into the envelope is a canonical coin set (coins enter only when positive, or through NewCoins/Add); IsValidInt256 admits every value of at most 256 bits",
+ "C19": "",
+ "C20": "; no construction-scope function creates a context on the stores; no consensus-scope branch compares a late-bound keeper field unless one side only panics or the sides differ only in the tabled re-derivation",
+}
+for _k, _c in EXTRA2.items():
+    c0, n0, t0 = CLAIMS[_k]
+    CLAIMS[_k] = (c0 + _c, n0, t0)
+
 BUILT = json.load(open('/verif/tools/built.json'))
 
 m = {"version": 1,
